@@ -382,6 +382,32 @@ func verifC03Series() {
 	verifReach("end")
 }
 
+// verifC03SeriesFields: a metric with two fields whose series lie in two containers (ids on both
+// sides of a 65536 boundary), each input holding one or both containers: the compaction output has
+// several containers AND several fields per series (the field offsets of a series are relative to
+// where its entry starts - also for the first series of a later container).
+func verifC03SeriesFields() {
+	sets := [][][]uint32{
+		{{3, 9}, {3, 65539}},
+		{{65539, 65540}, {9, 65539, 65540}},
+	}
+	files := make([]*verifC03File, 2)
+	for i := range files {
+		f := &verifC03File{
+			fields: field.Metas{{ID: 1, Type: field.MinField}, {ID: 4, Type: field.MaxField}},
+			rng:    timeutil.SlotRange{Start: verifC03Base, End: verifC03Base + 1},
+		}
+		f.series = sets[i][verifChoose("series", 2)]
+		pat := []int{3, 1}[verifChoose("pattern", 2)]
+		for range f.series {
+			f.data = append(f.data, [][]verifC03Cell{verifC03Stream("v", 2, pat), verifC03Stream("w", 2, 3)})
+		}
+		files[i] = f
+	}
+	verifC03Run(files)
+	verifReach("end")
+}
+
 // verifC03Fields: fields present in only some files, nil field data, series missing from a file,
 // different slot ranges
 func verifC03Fields() {
